@@ -142,7 +142,7 @@ def specStep (pool : Array (Option SEd)) (step : String) (go : Obs) : SStep :=
     | none => ⟨none, none⟩
   | ["linecount", s] =>
     match get s with
-    | some e => ⟨some s!"I~{(Spec.pieces e.text (lineSepOf e) e.opts.noTrailing).length}", some e⟩
+    | some e => ⟨some s!"I~{(Spec.linePieces e.text (lineSepOf e) e.opts.noTrailing).length}", some e⟩
     | none => ⟨none, none⟩
   | ["string", s] =>
     match get s with
